@@ -48,6 +48,7 @@ def run(ctx):
     ctx.run_rule("R1rv", r_round.rule_R1_rvec, ["pure-full"])
     ctx.run_rule("XNc", r_round.rule_XN_c)
     ctx.run_rule("HNc", r_round.rule_HN_c)
+    ctx.run_rule("HNr", r_round.rule_HN_rust, ["pure-full"])
     # the assembly flavour (the default build) against the same spec terms
     import r_asmsym
     ctx.run_rule("R1asm1", r_asmsym.rule_R1asm_single)
